@@ -433,6 +433,10 @@ func fallbackDeriveKey(passphrase []byte, keyLen int) []byte {
 	}
 
 	key := make([]byte, keyLen)
+	if len(passphrase) == 0 {
+		// nothing to stretch; also avoids the modulo by zero below
+		return key
+	}
 	copy(key, passphrase)
 	for i := len(passphrase); i < keyLen; i++ {
 		key[i] = passphrase[i%len(passphrase)] ^ byte(i)
